@@ -9,13 +9,16 @@
        * C14_rotation_paths: the paths lcd_entries enumerates for `renumber k` and for `rotate r k` correspond, visiting the
          same instructions of k in the same order with the same edge weights (any numeric instance, any dep/fwd/pidx/flagdeps,
          no side condition except r < length k and fuel >= length k);
-       * C14_rotation_raw: the entries before de-duplication correspond with EQUAL latency sums and the same members;
+       * C14_rotation_raw: the entries before de-duplication correspond with the same members, each latency sum being the
+         left-to-right sum of the entry's own sorted member list (since the repair "sum lat_path after lat_path.sort()");
        * C14_rotation_lcd_entries: after de-duplication every reported entry has a counterpart that is pairs_eqb-equal to an
          entry of the same cycle (numeric == reflexive);
        * C14_rotation_lcd_entries_Q / C14_rotation_lcd_figure_Q: for exact rationals the reported sums are == and the LCD
          figure (largest sum) is ==.
-   Not a theorem: for floats the kept representative of a cycle may start at a different root after rotation, so its sum adds the
-   same weights in a different order (checks/c14.py compares with a tolerance / reports it). *)
+   Within ONE kernel the reported latency of a cycle no longer depends on which of its rotations (root nodes) is kept, for every
+   numeric instance, binary64 included (Props/C16float.v: the sum is a function of the sorted member list).
+   Not a theorem: for floats, rotating the KERNEL renumbers the lines, so the sorted member list of a cycle starts at a different
+   member and its sum adds the same weights in a cyclically shifted order (checks/c14.py compares with a tolerance / reports it). *)
 From Coq Require Import List Bool Arith QArith Permutation.
 From OV Require Import Model.Num Model.Pressure Model.Deps Proofs.LCD Proofs.Rotation Proofs.RotationGlue.
 Import ListNotations.
@@ -82,14 +85,18 @@ Proof.
 Qed.
 Print Assumptions C14_rotation_paths.
 
-(* ... of the entries before de-duplication: equal latency sums (same additions in the same order), same members *)
+(* ... of the entries before de-duplication: same members (as instructions of k, with the same per-edge latencies); each
+   latency sum is the left-to-right sum of the entry's own sorted member list (kernel_dg.py sums lat_path after lat_path.sort()),
+   so the two sums add the same weights in the orders given by the two line numberings *)
 Theorem C14_rotation_raw : forall (T : Type) (N : NumOps T) dep fwd pidx fd (k : list (line (T:=T))) r, r < List.length k ->
   (forall e, In e (lcd_raw N dep fwd pidx fd (renumber k)) ->
      exists e', In e' (lcd_raw N dep fwd pidx fd (rotate r k)) /\
-                fst e' = fst e /\ Permutation (entry_ident k r e') (entry_ident k 0 e)) /\
+                (fst e = sum_pairs N (snd e) /\ fst e' = sum_pairs N (snd e')) /\
+                Permutation (entry_ident k r e') (entry_ident k 0 e)) /\
   (forall e', In e' (lcd_raw N dep fwd pidx fd (rotate r k)) ->
      exists e, In e (lcd_raw N dep fwd pidx fd (renumber k)) /\
-               fst e' = fst e /\ Permutation (entry_ident k r e') (entry_ident k 0 e)).
+               (fst e = sum_pairs N (snd e) /\ fst e' = sum_pairs N (snd e')) /\
+               Permutation (entry_ident k r e') (entry_ident k 0 e)).
 Proof. intros T N dep fwd pidx fd k r Hr. exact (rotation_raw N dep fwd pidx fd k r Hr). Qed.
 Print Assumptions C14_rotation_raw.
 
@@ -103,10 +110,10 @@ Theorem C14_rotation_lcd_entries : forall (T : Type) (N : NumOps T) dep fwd pidx
   (forall a, neqb N a a = true) -> r < List.length k ->
   (forall e, In e (lcd_entries N dep fwd pidx fd (renumber k)) ->
      exists e' e'', In e'' (lcd_entries N dep fwd pidx fd (rotate r k)) /\ In e' (lcd_raw N dep fwd pidx fd (rotate r k)) /\
-                    same_cycle k r e e' /\ pairs_eqb N (snd e') (snd e'') = true) /\
+                    same_cycle N k r e e' /\ pairs_eqb N (snd e') (snd e'') = true) /\
   (forall e', In e' (lcd_entries N dep fwd pidx fd (rotate r k)) ->
      exists e e0, In e0 (lcd_entries N dep fwd pidx fd (renumber k)) /\ In e (lcd_raw N dep fwd pidx fd (renumber k)) /\
-                  same_cycle k r e e' /\ pairs_eqb N (snd e) (snd e0) = true).
+                  same_cycle N k r e e' /\ pairs_eqb N (snd e) (snd e0) = true).
 Proof. intros T N dep fwd pidx fd k r R Hr. exact (rotation_lcd_entries N dep fwd pidx fd k r R Hr). Qed.
 Print Assumptions C14_rotation_lcd_entries.
 
